@@ -35,6 +35,7 @@ type Writer struct {
 	err         error
 	scratch     [4]byte
 	wroteHeader bool
+	closed      bool
 }
 
 // NewWriter creates a new Writer.
@@ -88,6 +89,7 @@ func (z *Writer) Reset(w io.Writer) {
 	z.err = nil
 	z.scratch = [4]byte{}
 	z.wroteHeader = false
+	z.closed = false
 }
 
 // writeHeader writes the ZLIB header.
@@ -182,6 +184,9 @@ func (z *Writer) Close() error {
 	if z.err != nil {
 		return z.err
 	}
+	if z.closed {
+		return nil
+	}
 	z.err = z.compressor.Close()
 	if z.err != nil {
 		return z.err
@@ -190,5 +195,8 @@ func (z *Writer) Close() error {
 	// ZLIB (RFC 1950) is big-endian, unlike GZIP (RFC 1952).
 	binary.BigEndian.PutUint32(z.scratch[:], checksum)
 	_, z.err = z.w.Write(z.scratch[0:4])
+	if z.err == nil {
+		z.closed = true
+	}
 	return z.err
 }
